@@ -101,6 +101,47 @@ def digest(lat):
     return out
 
 
+def label_queries(lat):
+    """What a caller who holds only the lattice asks of it: lookups by labels, bounds, generating sets."""
+    members = list(lat)
+    idx = {id(c): k for k, c in enumerate(members)}
+    out = []
+    for c in members[:60]:
+        row = [idx.get(id(lat[tuple(c.extent)])) if c.extent else None, idx.get(id(lat(tuple(c.intent)))),
+               idx.get(id(lat.join([c, members[0]]))), idx.get(id(lat.meet([c, members[-1]]))),
+               idx.get(id(c | members[len(members) // 2])), list(c.minimal())]
+        if len(c.intent) <= 8:
+            row.append([list(a) for a in c.attributes()])
+        out.append(row)
+    out.append([idx.get(id(lat.join([]))), idx.get(id(lat.meet([]))), [idx.get(id(a)) for a in lat.atoms]])
+    return out
+
+
+def lattice_outlives_context(load, want, origin):
+    """``lattice = Context.fromjson(path).lattice``: the caller keeps the stored lattice and lets go of the
+    context it came with.  The lattice must go on answering like the one built from scratch."""
+    import gc
+    c2 = load()
+    if c2 is RAISED or c2 is None or not attach.has_lattice(c2):
+        return
+    l_only = c2.lattice
+    del c2
+    common.drop_views()
+    gc.collect()
+    COL.count('lattices_kept_without_their_context')
+    with core.monitor_code():
+        try:
+            got = label_queries(l_only)
+        except Exception as e:
+            COL.violation(origin, f'{origin}:query-on-lattice-kept-without-its-context-raised-{type(e).__name__}',
+                          'a result', repr(e))
+            return
+    if got != want:
+        k = next((i for i, (a, b) in enumerate(zip(want, got)) if a != b), None)
+        COL.violation(origin, f'{origin}:lattice-kept-without-its-context-answers-differently',
+                      want[k] if k is not None else len(want), got[k] if k is not None else len(got))
+
+
 def judge_lattice(lat, ctx, sh, cap, origin, scratch_digest=None, light=False):
     """The stored/unpickled lattice vs the structural monitors and the scratch digest."""
     COL.count('judged_loaded_lattice')
@@ -735,6 +776,22 @@ def run_case(concepts, case, spec):
                 COL.count('raw_documents_through_fromjson')
                 with core.monitor_code():
                     judge_lattice(cj.lattice, cj, sh, cap, 'fromjson_raw')
+        if sl.n <= 120 and hash(gen.table_key(case)) % 2 == 0:
+            with core.monitor_code():
+                try:
+                    want_lq = label_queries(lat)
+                except Exception:
+                    want_lq = None
+            if want_lq is not None:
+                s_ = call(ctx.tostring, 'python-literal')
+                routes = [(lambda: call(C.fromdict, copy.deepcopy(d)), 'fromdict'),
+                          (lambda: _json_roundtrip(concepts, ctx, work, rng, False, False), 'fromjson'),
+                          (lambda: call(C.fromstring, s_, 'python-literal') if s_ is not RAISED else None, 'literal'),
+                          (lambda: call(C.fromdict, permuted_dict(d, rng), raw=True), 'fromdict_raw'),
+                          (lambda: call(lambda: pickle.loads(pickle.dumps(ctx))), 'unpickled'),
+                          (lambda: call(ctx.copy, include_lattice=True), 'copied')]
+                for load, origin in rng.sample(routes, 2):
+                    lattice_outlives_context(load, want_lq, origin)
         same_triple('json', _json_roundtrip(concepts, ctx, work, rng, False, False), sh)
         same_triple('json-raw', _json_roundtrip(concepts, ctx, work, rng, False, True), sh)
         same_triple('json-nolattice', _json_roundtrip(concepts, ctx, work, rng, True, False), sh)
